@@ -191,6 +191,7 @@ func testC10(t *testing.T, kind sim.Kind) {
 			}
 			return nil
 		}
+		l0MinSteps = exportAt + 8 // the history reaches the export and goes on for a while
 		m, actions := runL0(c, cfg, maxStepsL0(), mirror, func(m *l0Machine) error { return nil })
 		if tw != nil {
 			// the final quiesce of runL0 is not seen by perStep: mirror it
